@@ -181,6 +181,46 @@ SYMBOLIC_ALIGN = [
 ]
 
 
+def random_programs(seed, n, max_len=9):
+    """seeded random programs over a rich alphabet with up to three labels placed anywhere;
+    every program is then decided for all values of its symbols (gap size, li value, base)"""
+    rnd = random.Random(1000003 * (seed + 1))
+    plain = [F4, FC, 'li x5 5', 'li x5 0x12345678', 'mv x8 x9', 'ret', 'sub x8 x8 x9', 'slli x9 x9 2', 'ebreak',
+             'dw 7', 'dh 1', 'dd 1', 'bytes 1 2', 'shorts -1 2', 'ints 1', 'longs -1', 'longlongs 1', 'string ab',
+             'string \u00e9x', 'pack <h 1', 'pack >Q 1', 'align 4', 'align 8', 'align 2', 'K9 = 3', 'addi x9 x9 K9',
+             'lw x9 4(x2)', 'sw x8 8(x9)', 'and x8 x8 x9', 'jr x5', 'nop', 'fence']
+    refs = ['beq x8 x0 %s', 'blt x5 x6 %s', 'bnez x9 %s', 'bgt x5 x6 %s', 'j %s', 'jal %s', 'jal x5 %s', 'call %s', 'tail %s',
+            'dw %s', 'dw %%offset(%s)', 'li x6 %s', 'addi x5 x5 %%offset(%s)', 'lui x5 %%hi(%s)', 'addi x5 x5 %%lo(%s)',
+            'pack <I %%position(%s, BASE)', 'li x7 %%position(%s, BASE)', 'lw x6 x5 %%lo(%s)']
+    out = []
+    for k in range(n):
+        nl = rnd.randint(1, 3)
+        labels = ['L%d' % (i + 1) for i in range(nl)]
+        length = rnd.randint(3, max_len)
+        body = []
+        used_gap = used_k = 0
+        for _ in range(length):
+            r = rnd.random()
+            if r < 0.45:
+                body.append(rnd.choice(refs) % rnd.choice(labels))
+            elif r < 0.52 and used_gap < 2:
+                body.append(G(used_gap))
+                used_gap += 1
+            elif r < 0.57 and not used_k:
+                body.append('li x5 K0')
+                used_k = 1
+            else:
+                body.append(rnd.choice(plain))
+        for lab in labels:
+            body.insert(rnd.randint(0, len(body)), lab + ':')
+        if 'K9' in ' '.join(body) and not any(b.startswith('K9 =') for b in body):
+            body.insert(0, 'K9 = 3')
+        elif any(b.startswith('K9 =') for b in body):
+            body = ['K9 = 3'] + [b for b in body if not b.startswith('K9 =')]
+        out.append(('rand_%d_%d' % (seed, k), body))
+    return out
+
+
 def relevant(prop, lines):
     """does this template carry an obligation of ``prop``"""
     from .layout import classify, value_expr
